@@ -54,10 +54,15 @@ class World(object):
         self.env = None            # simenv.Env supplying the bytes
         self.kernel_driver = False
         self.issues = []
+        self.unplug_at = None      # from this backend call index on the device is gone: every call raises USBErrorNoDevice
+        self.unplugged = False
 
     def call(self, name, *args):
         idx = len(self.calls)
         self.calls.append((name,) + args)
+        if self.unplug_at is not None and idx >= self.unplug_at:
+            self.unplugged = True
+            raise USBErrorNoDevice()
         k = self.faults.get(idx)
         if k:
             raise ERRORS[k]()
@@ -182,6 +187,8 @@ class Device(object):
         return list(self.ports)
 
     def getSerialNumber(self):
+        if WORLD.unplugged:
+            raise USBErrorNoDevice()
         return self.serial
 
     def open(self):
